@@ -143,10 +143,21 @@ def gen_t(rng, size, nthreads, nreq):
                                  ",".join(map(str, reqs)))
 
 
+def gen_q_bulk(rng, nfill, left):
+    """more live records than one allocation block of the table's node pool (1024): a record with `left` seconds of validity
+    left is inserted first, then nfill long-lived ones, then it is presented again: it must still be there"""
+    base = 500000
+    keys = [(_mac(rng, 16), base - 10, 10 + left)] + [(_mac(rng, 16), base, 3000 + i % 7) for i in range(nfill)]
+    ops = ["t%d" % base, "i0"] + ["i%d" % (i + 1) for i in range(nfill)] + ["i0", "f0"]
+    return "Q 0 %s %s" % (key_str(keys), ",".join(ops))
+
+
 def gen_cases(ctx, prop):
     rng = ctx.rng
     th = ctx.thorough
     lines = []
+    for (nfill, left) in ((1030, 55), (1030, 1)) + (((2060, 30), (3100, 59)) if th else ()):
+        lines.append(gen_q_bulk(rng, nfill, left))
     small = [1, 1, 2, 3, 7]
     n_small = 20000 if th else 900
     n_real = 3000 if th else 120
